@@ -16,17 +16,27 @@ def make_ezsp(version):
     return e
 
 
-async def impl_write(version, cur, overrides, reject, status_family):
-    """returns (ops, error) where ops are canonical strings as printed by the model driver"""
+BAD = {
+    # rejection statuses of each family, among them the out-of-memory ones
+    "ezsp": ["ERROR_INVALID_ID", "ERROR_OUT_OF_MEMORY", "ERROR_INVALID_VALUE"],
+    "ember": ["ERR_FATAL", "NO_BUFFERS", "BAD_ARGUMENT"],
+    "sl": ["INVALID_PARAMETER", "NO_MORE_RESOURCE", "ALLOCATION_FAILED", "FAIL"],
+}
+
+
+async def impl_write(version, cur, overrides, reject, status_family, e=None):
+    """returns (ops, error) where ops are canonical strings as printed by the model driver; `status_family` is
+    "<family>" or "<family>/<rejection status name>"; `e` = an EZSP object that has already written a configuration"""
     import bellows.types as t
 
-    e = make_ezsp(version)
+    if e is None:
+        e = make_ezsp(version)
+    impl_write.last = e
     ops = []
-    ok, bad = {
-        "ezsp": (t.EzspStatus.SUCCESS, t.EzspStatus.ERROR_INVALID_ID),
-        "ember": (t.EmberStatus.SUCCESS, t.EmberStatus.ERR_FATAL),
-        "sl": (t.sl_Status.OK, t.sl_Status.INVALID_PARAMETER),
-    }[status_family]
+    famname, _, badname = status_family.partition("/")
+    cls, okname = {"ezsp": (t.EzspStatus, "SUCCESS"), "ember": (t.EmberStatus, "SUCCESS"), "sl": (t.sl_Status, "OK")}[famname]
+    ok = cls[okname]
+    bad = cls[badname] if badname and badname in cls.__members__ else cls[BAD[famname][0]]
 
     async def command(name, *args, **kwargs):
         if name == "getValue":
@@ -109,6 +119,7 @@ def gen_case(ctx, version, keys, defaults):
         if rng.random() < 0.5:
             reject.add(("v", int(t.EzspValueId.VALUE_FORCE_TX_AFTER_FAILED_CCA_ATTEMPTS)))
     fam = rng.choice(["ezsp", "ember", "sl"])
+    fam = fam + "/" + rng.choice(BAD[fam])
     return good, cur, reject, fam
 
 
@@ -203,8 +214,10 @@ def line_for(version, cur, items, user):
 def run_cases(ctx, cases):
     async def go():
         res = []
-        for version, ov, cur, reject, fam in cases:
-            res.append(await impl_write(version, cur, ov, reject, fam))
+        for version, ov, cur, reject, fam, *chain in cases:
+            # chain: this write goes through the EZSP object of the previous case (the configuration is written again after
+            # every NCP reset): what an earlier write met must not change what this one does
+            res.append(await impl_write(version, cur, ov, reject, fam, e=impl_write.last if chain and chain[0] else None))
         return res
 
     impl = asyncio.run(go())
@@ -212,7 +225,10 @@ def run_cases(ctx, cases):
     model = ctx.driver([line_for(c[0], c[2], it, c[1]) for c, it in zip(cases, items_l)])
     seen = set()
     for idx, (case, (ops, err), items) in enumerate(zip(cases, impl, items_l)):
-        version, ov, cur, reject, fam = case
+        version, ov, cur, reject, fam = case[:5]
+        chained = len(case) > 5 and case[5]
+        if chained:
+            ctx.count("second_write_same_object")
         ctx.cov["evaluations"] += 1
         defaults = defaults_of(version)
         canon = (version, tuple(sorted(cur.items(), key=str)), tuple(items), tuple(sorted(reject)))
@@ -235,7 +251,9 @@ def run_cases(ctx, cases):
             ctx.count(f"oracle:{kind}")
             key = {"kind": kind}
             ctx.violation(msg, key, {"version": version, "overrides": ov, "current": {str(k): v for k, v in cur.items()},
-                                     "reject": sorted(reject), "status_family": fam, "impl_ops": ops, "impl_error": err})
+                                     "reject": sorted(reject), "status_family": fam, "impl_ops": ops, "impl_error": err,
+                                     "after": ({"overrides": cases[idx - 1][1], "current": {str(k): v for k, v in cases[idx - 1][2].items()},
+                                                "reject": sorted(cases[idx - 1][3]), "status_family": cases[idx - 1][4]} if chained else None)})
         if model is not None:
             got = " ".join(ops) if err is None else f"ERR {err}"
             if got != model[idx]:
@@ -260,12 +278,23 @@ def run(ctx, n=None):
         cases.append((version, {}, {}, set(), "ezsp"))
         cases.append((version, {}, {d[1]: d[2] for d in defaults}, set(), "sl"))
         cases.append((version, {}, {d[1]: d[2] - 1 for d in defaults}, {("c", d[1]) for d in defaults}, "ember"))
-        for _ in range(per):
-            cases.append((version,) + gen_case(ctx, version, keys, defaults))
+        for k in range(per):
+            c = gen_case(ctx, version, keys, defaults)
+            cases.append((version,) + c)
+            if k % 5 == 0:
+                # the same settings written again through the same EZSP object after an NCP reset, the NCP now accepting
+                # everything (and, every other time, with other current values)
+                good, cur, reject, fam = c
+                cur2 = cur if k % 10 == 0 else {i: ctx.rng.choice([None, 0, 1, 7, 16, 64, 255]) for i in cur}
+                cases.append((version, good, cur2, set(), fam, True))
+        # an NCP short of memory: grow-only defaults far above the current values, refused with the out-of-memory status
+        for fam in ("ezsp/ERROR_OUT_OF_MEMORY", "sl/NO_MORE_RESOURCE", "ember/NO_BUFFERS"):
+            cases.append((version, {}, {d[1]: max(1, d[2] // 8) for d in defaults}, {("c", d[1]) for d in defaults}, fam))
+            cases.append((version, {}, {d[1]: 1 for d in defaults}, {("c", d[1]) for d in defaults if d[3]}, fam))
     run_cases(ctx, cases)
     ctx.cov["rule"] = ("protocol versions with a default list × seeded random current values per setting (below/equal/above the default, unreadable) × "
-                       "random override sets drawn from the version's schema keys (in and outside the defaults; values or disabled) × random reject answers × "
-                       "status family; non-trivial = at least one override/disabled key or one grow-only skip; distinct after canonicalisation")
+                       "random override sets drawn from the version's schema keys (in and outside the defaults; values or disabled) × random reject answers (several rejection statuses per family incl. out of memory) × "
+                       "status family; every fifth case followed by a second write through the same EZSP object; an NCP refusing the grow-only defaults for lack of memory; non-trivial = at least one override/disabled key or one grow-only skip; distinct after canonicalisation")
 
 
 def search(ctx):
@@ -277,7 +306,15 @@ def replay(ctx, obj):
     r = obj["replay"]
     cur = {int(k): v for k, v in r["current"].items()}
     reject = {tuple(x) for x in r["reject"]}
-    ops, err = asyncio.run(impl_write(r["version"], cur, r["overrides"], reject, r["status_family"]))
+    async def _go():
+        e = None
+        if r.get("after"):
+            a = r["after"]
+            await impl_write(r["version"], {int(k): v for k, v in a["current"].items()}, a["overrides"], {tuple(x) for x in a["reject"]}, a["status_family"])
+            e = impl_write.last
+        return await impl_write(r["version"], cur, r["overrides"], reject, r["status_family"], e=e)
+
+    ops, err = asyncio.run(_go())
     items = validated_items(r["version"], r["overrides"])
     bad = oracle(r["version"], defaults_of(r["version"]), items, cur, ops, err, r["overrides"])
     print(f"replay: v{r['version']} overrides={r['overrides']}: ops={ops} err={err}")
